@@ -19,6 +19,7 @@ func genSpec(t *rapid.T) FileSpec {
 		Protolib: rapid.SampledFrom([]string{"", "", "custom", "gogo"}).Draw(t, "protolib"),
 		JSON:     rapid.Bool().Draw(t, "json"),
 		OtherPkg: rapid.SampledFrom([]string{"", "", "context", "drpc"}).Draw(t, "otherpkg"),
+		TwoFiles: rapid.IntRange(0, 2).Draw(t, "twofiles") == 0,
 	}
 	// names are distinct after Go protobuf's own camel-casing by construction (no rejection)
 	methGen := rapid.Custom(func(t *rapid.T) MethodSpec {
@@ -91,6 +92,9 @@ func runSpec(f FileSpec) (r pbt.Result) {
 	}
 	if f.OtherPkg != "" {
 		r.Label("imported_package_named_" + f.OtherPkg)
+	}
+	if f.TwoFiles {
+		r.Label("two_service_files_in_one_invocation")
 	}
 	if f.Protolib != "" {
 		r.Label("protolib_" + f.Protolib)
